@@ -416,6 +416,14 @@ pub fn minimise<P: Prop>(p: &P, case: &P::Case, fail: &Fail, budget: usize) -> (
     (cur, cur_fail, used)
 }
 
+/// Where evidence and replay files go (defaults to the verif dir; mutant
+/// runs point it elsewhere so that committed evidence is not overwritten).
+pub fn out_dir() -> PathBuf {
+    std::env::var("VERIF_OUT_DIR")
+        .map(PathBuf::from)
+        .unwrap_or_else(|_| verif_dir())
+}
+
 pub fn verif_dir() -> PathBuf {
     std::env::var("VERIF_DIR")
         .map(PathBuf::from)
@@ -430,7 +438,7 @@ pub fn write_replay<P: Prop>(
     run: u64,
     shrink_steps: usize,
 ) -> PathBuf {
-    let dir = verif_dir().join("replays").join(p.id());
+    let dir = out_dir().join("replays").join(p.id());
     let _ = std::fs::create_dir_all(&dir);
     let body = json!({
         "property": p.id(),
@@ -524,7 +532,7 @@ pub fn write_evidence<P: Prop>(
         "wall_s": res.wall_s,
         "violations": violations,
     });
-    let dir = verif_dir().join("evidence");
+    let dir = out_dir().join("evidence");
     let _ = std::fs::create_dir_all(&dir);
     let path = dir.join(format!("{}.json", p.id()));
     std::fs::write(&path, serde_json::to_string_pretty(&ev).unwrap()).expect("write evidence");
